@@ -1,9 +1,9 @@
-\* (E) exhaustive: the model with all five candidate fixes applied satisfies the reference
+\* (E) exhaustive, thorough tier (4 requests over the lifecycle core): the model with all five candidate fixes applied satisfies the reference
 SPECIFICATION Spec
 CONSTANTS
-  MaxReq = 3
-  Universe <- UniverseFull
-  QMaxEv = 0
+  MaxReq = 4
+  Universe <- UniverseCore
+  QMaxEv = 1
   PreLines = 1
   PostLines = 1
   SeqUnderLock = TRUE
